@@ -1,5 +1,5 @@
 Require Import FastZ.
-From Dashu Require Import Base.Prelude Float.RoundSpec Float.Contract Float.Model Float.AddModel Float.DivMulModel Float.LongModel Float.FixModel.
+From Dashu Require Import Base.Prelude Float.RoundSpec Float.Contract Float.Model Float.AddModel Float.DivMulModel Float.LongModel Float.FixModel Float.IterModel Float.ExpRangeModel.
 Extraction "model.ml" check_contract dlen x_exp cmp_kx spec_round round_rat_at
   repr_round ctx_mul ctx_sqr ctx_cubic repr_div round_fract round_ratio
   ctx_add_x ctx_sub_x ctx_add_x1 ctx_sub_x1 add_val_val_x add_val_ref_x add_ref_val_x add_ref_ref_x ctx_sqrt add_path approx_val
@@ -10,4 +10,5 @@ Extraction "model.ml" check_contract dlen x_exp cmp_kx spec_round round_rat_at
   fbig_sqr fbig_cubic fbig_sqrt fbig_inv add_float_prim_vv_x add_float_prim_rv_x add_prim_float_vv_x add_prim_float_vr_x
   is_normal ctx_add_n_x ctx_sub_n_x ctx_mul_n ctx_sqr_n ctx_cubic_n ctx_div_n_x ctx_inv_n ctx_sqrt_n repr_rem_n sqrt_round_frac
   ctx_add_fix_x ctx_sub_fix_x ctx_add_fix_x1 ctx_sub_fix_x1 ctx_add_fix_n_x ctx_sub_fix_n_x
-  ctx_mul_fix_n ctx_sqr_fix_n ctx_cubic_fix_n repr_div_fix_n ctx_inv_fix_n fbig_div_fix.
+  ctx_mul_fix_n ctx_sqr_fix_n ctx_cubic_fix_n repr_div_fix_n ctx_inv_fix_n fbig_div_fix
+  fbig_product ctx_mul_chk ctx_sqr_chk ctx_cubic_chk in_i.
